@@ -271,6 +271,34 @@ fn gen(g: &mut G, thorough: bool) -> Plan {
                     bound = Some((start, 16 * 1024, "bare-lf-continuation-without-end"));
                     ("endless-continuation", w)
                 }
+                _ if g.chance(1, 2) => {
+                    // a complete gzip or deflate stream of a small payload, and then data without end inside the
+                    // same (close-delimited or over-announced) frame: what follows the stream is skipped up to a
+                    // bound, never in one call that does not return
+                    use std::io::Write;
+                    let small = b"the payload proper".to_vec();
+                    let (label, z): (&str, Vec<u8>) = if g.chance(1, 2) {
+                        let mut e = flate2::write::GzEncoder::new(Vec::new(), flate2::Compression::default());
+                        e.write_all(&small).unwrap();
+                        ("gzip", e.finish().unwrap())
+                    } else {
+                        let mut e = flate2::write::DeflateEncoder::new(Vec::new(), flate2::Compression::default());
+                        e.write_all(&small).unwrap();
+                        ("deflate", e.finish().unwrap())
+                    };
+                    let head = if g.chance(1, 2) {
+                        format!("HTTP/1.1 200 OK\r\nContent-Encoding: {}\r\n\r\n", label)
+                    } else {
+                        format!("HTTP/1.1 200 OK\r\nContent-Encoding: {}\r\nContent-Length: {}\r\n\r\n", label, 1u64 << 40)
+                    };
+                    let mut w = head.into_bytes();
+                    w.extend_from_slice(&z);
+                    let start = w.len();
+                    w.resize(total.max(1 << 20), b'x');
+                    bound = Some((start, 64 * 1024, "chunk-like:data-after-the-compressed-stream-without-end"));
+                    g.probe("endless-data-after-a-compressed-stream");
+                    ("endless-data-after-coded-stream", w)
+                }
                 _ => {
                     // gzip of zeros: tiny on the wire, huge when inflated; the caller reads it with a fixed buffer
                     use std::io::Write;
@@ -308,7 +336,7 @@ fn gen(g: &mut G, thorough: bool) -> Plan {
     }
     let via_connect = match kind {
         "endless-refusal-body" => true,
-        "endless-chunk-size-line" | "gzip-bomb" | "alphabet-chunked-body" => false,
+        "endless-chunk-size-line" | "gzip-bomb" | "alphabet-chunked-body" | "endless-data-after-coded-stream" => false,
         _ => g.chance(1, 4),
     };
     if via_connect {
@@ -477,7 +505,12 @@ pub fn scenario(g: &mut G, ctx: &RunCtx) -> RunReport {
             let mut v = Verdict::Pass;
             if let Some((start, limit, what)) = p.bound {
                 // BufReader pulls at most 8 KiB beyond what the limited reader asks for
-                let allowed = start + limit + 8192 + 1;
+                let mut allowed = start + limit + 8192 + 1;
+                if what.contains("data-after-the-compressed-stream") {
+                    // the bound holds per call: a caller that reads again after the error makes the reader skip
+                    // (and refuse) once more
+                    allowed = start + (limit + 8192 + 1) * (1 + p.rereads);
+                }
                 if consumed > allowed {
                     v = violation(
                         format!("limit-not-enforced:{}", what),
